@@ -6,8 +6,8 @@ from vlib.harness import Sub, Violation, call, expect_raises
 
 PROPERTY = "C17"
 RULE = ("SimulationResult built from 1-4 distinct input states, 1-8 distinct output states (0-3 photons per mode, "
-        "1-5 modes), real non-negative arrays (probability) incl. zeros and empty rows or complex arrays "
-        "(probability_amplitude); SamplingResult built from a dict of distinct states to non-negative integer "
+        "1-5 modes), real non-negative arrays (probability) incl. zeros and empty rows or complex / float / integer "
+        "arrays (probability_amplitude); SamplingResult built from a dict of distinct states to non-negative integer "
         "counts. A generated sequence of 1-3 mappings (threshold | parity, plain | inverted) is applied, each one "
         "both to the previous result and to the untouched original. Oracle: pair indexing == nested indexing == "
         "array entry in list order; mapped result == Python model (per-mode function, coinciding images added), "
